@@ -458,6 +458,8 @@ pub struct Attempt {
     pub at: Duration,
     pub step: ConnectStep,
     pub conn_id: Option<usize>,
+    /// authority the attempt was made to (which endpoint of a balanced channel)
+    pub host: String,
 }
 
 #[derive(Clone)]
@@ -465,6 +467,8 @@ pub struct SimConnector {
     pub net: SimNet,
     pub script: Arc<Mutex<VecDeque<ConnectStep>>>,
     pub attempts: Arc<Mutex<Vec<Attempt>>>,
+    /// hosts that are gone for good: every attempt to one is refused, whatever the script says
+    pub dead_hosts: Arc<Mutex<Vec<String>>>,
     accept_tx: mpsc::UnboundedSender<SimStream>,
 }
 
@@ -472,7 +476,7 @@ impl SimConnector {
     /// Returns the connector and the receiving end on which server-side streams appear.
     pub fn new(net: &SimNet, script: Vec<ConnectStep>) -> (SimConnector, mpsc::UnboundedReceiver<SimStream>) {
         let (tx, rx) = mpsc::unbounded_channel();
-        (SimConnector { net: net.clone(), script: Arc::new(Mutex::new(script.into())), attempts: Arc::new(Mutex::new(vec![])), accept_tx: tx }, rx)
+        (SimConnector { net: net.clone(), script: Arc::new(Mutex::new(script.into())), attempts: Arc::new(Mutex::new(vec![])), dead_hosts: Arc::new(Mutex::new(vec![])), accept_tx: tx }, rx)
     }
     pub fn n_attempts(&self) -> usize {
         self.attempts.lock().unwrap().len()
@@ -492,9 +496,11 @@ impl tower_service::Service<http::Uri> for SimConnector {
     }
 
     fn call(&mut self, uri: http::Uri) -> Self::Future {
-        let step = self.script.lock().unwrap().pop_front().unwrap_or(ConnectStep::Ok { delay_us: 0 });
+        let dead = self.dead_hosts.lock().unwrap().iter().any(|h| Some(h.as_str()) == uri.host());
+        let step = if dead { ConnectStep::Fail(io::ErrorKind::ConnectionRefused) } else { self.script.lock().unwrap().pop_front().unwrap_or(ConnectStep::Ok { delay_us: 0 }) };
         let this = self.clone();
         let now = this.net.now();
+        let host = uri.host().unwrap_or("").to_string();
         this.net.sim.ev(|| format!("t={now:?} connector: attempt {} to {uri} -> {step:?}", this.attempts.lock().unwrap().len() + 1));
         this.net.sim.mark(0x40);
         Box::pin(async move {
@@ -506,7 +512,7 @@ impl tower_service::Service<http::Uri> for SimConnector {
                         tokio::time::sleep(Duration::from_micros(d)).await;
                     }
                     this.net.sim.fault("connect-fails");
-                    this.attempts.lock().unwrap().push(Attempt { at: now, step, conn_id: None });
+                    this.attempts.lock().unwrap().push(Attempt { at: now, step, conn_id: None, host });
                     Err(io::Error::new(kind, "simulated connect failure"))
                 }
                 ConnectStep::Ok { delay_us } => {
@@ -515,7 +521,7 @@ impl tower_service::Service<http::Uri> for SimConnector {
                     }
                     let (c, s) = this.net.pair();
                     let id = c.conn_id();
-                    this.attempts.lock().unwrap().push(Attempt { at: now, step, conn_id: Some(id) });
+                    this.attempts.lock().unwrap().push(Attempt { at: now, step, conn_id: Some(id), host });
                     if this.accept_tx.send(s).is_err() {
                         // nobody listens any more: connection refused
                         return Err(io::Error::new(io::ErrorKind::ConnectionRefused, "simulated: listener closed"));
